@@ -63,8 +63,21 @@ func genLimit(prop string, r *simrt.SplitMix) *LimitSc {
 	hugeQ := r.Intn(12) == 0
 
 	sc.I = int64(pick(r, 1, 2, 3, 10, 100, 1000, 10_000, 1_000_000, 1_000_000_000))
-	if r.Intn(3) == 0 {
+	switch r.Intn(6) {
+	case 0, 1:
 		sc.I = int64(between(r, 1, 10_000))
+	case 2:
+		// log-uniform over 1 ns .. 10 s with arbitrary low digits: intervals that divide
+		// nothing evenly (5.5 ms, 3 ms, 7 ms ...) are as legal as round ones
+		hi := int64(10)
+		for k := r.Intn(10); k > 0; k-- {
+			hi *= 10
+		}
+
+		sc.I = hi/10 + int64(r.Intn(int(hi-hi/10)))
+		if sc.I < 1 {
+			sc.I = 1
+		}
 	}
 
 	q := int(sc.Q)
